@@ -459,6 +459,36 @@ func toInt(v interface{}) int {
 	return v.(int)
 }
 
+// longRoll: max segment size 24 and 10-byte entries, so every Append rolls over into its own
+// segment file (ids 1..nseg, unpadded decimal names); the first nadv segments are consumed,
+// then reopen, nread single-entry reads, nmore appends, reopen again (and optionally a torn append).
+func longRoll(nseg, nadv, nread, nmore int, cr *jcrash) jcase {
+	c := jcase{MaxSize: 4096, MaxSeg: 24, Crash: cr}
+	seq := 0
+	entry := func() []int {
+		seq++
+		return []int{seq, 200, 0, 0, 0, 0, 0, 0, 0, seq % 7}
+	}
+	for i := 0; i < nseg; i++ {
+		c.Ops = append(c.Ops, jop{Kind: "append", B: entry()})
+		if i < nadv && i%2 == 1 { // interleave consumption with production
+			c.Ops = append(c.Ops, jop{Kind: "scanadv", N: 2}, jop{Kind: "scanadv", N: 2})
+		}
+	}
+	if nadv%2 == 1 {
+		c.Ops = append(c.Ops, jop{Kind: "scanadv", N: 2})
+	}
+	c.Ops = append(c.Ops, jop{Kind: "reopen"})
+	for i := 0; i < nread; i++ {
+		c.Ops = append(c.Ops, jop{Kind: "scanadv", N: 1})
+	}
+	for i := 0; i < nmore; i++ {
+		c.Ops = append(c.Ops, jop{Kind: "append", B: entry()})
+	}
+	c.Ops = append(c.Ops, jop{Kind: "reopen"})
+	return c
+}
+
 func allKs(n int) []int {
 	full := n + 16
 	var ks []int
@@ -470,7 +500,7 @@ func allKs(n int) []int {
 
 func main() {
 	w := vh.New("C26", "From Verif Require Import Base.Prelude Model.C26.\nOpen Scope Z_scope.", "case", "check")
-	w.Rule = "histories (3-14 ops) of Append / Queue.Advance / scanner(n)+Advance / reopen / PurgeOlderThan on a real durablequeue.Queue with max segment size in {24..300} bytes (roll-over every 1-4 entries), max queue size from 2x segment size (ErrQueueFull reachable) to 4096, verifyBlockFn permissive or strict; entries are non-empty with a unique first byte; benign stream = small/zero-rich bytes, adversarial stream = payloads embedding the big-endian encoding of record boundaries of the current tail. About 2/3 of the histories end with a torn last Append: every prefix length k of its write (all k for entries up to 40 bytes, else a boundary-biased subset) is applied to a copy of the directory, reopened and drained. Queue.Advance is also called on empty queues (must be a no-op since fix a852c65657). Aliasing crash images (last 8 bytes are not a persisted footer yet decode to <= size-8) are emitted as separate cases carrying the known-finding signature. Hand-picked regression cases come first. Non-trivial: at least two acknowledged appends and at least one delivery or crash image. Distinct: distinct Gallina terms."
+	w.Rule = "histories (3-14 ops) of Append / Queue.Advance / scanner(n)+Advance / reopen / PurgeOlderThan on a real durablequeue.Queue with max segment size in {24..300} bytes (roll-over every 1-4 entries), max queue size from 2x segment size (ErrQueueFull reachable) to 4096, verifyBlockFn permissive or strict; entries are non-empty with a unique first byte; benign stream = small/zero-rich bytes, adversarial stream = payloads embedding the big-endian encoding of record boundaries of the current tail. About 2/3 of the histories end with a torn last Append: every prefix length k of its write (all k for entries up to 40 bytes, else a boundary-biased subset) is applied to a copy of the directory, reopened and drained. Queue.Advance is also called on empty queues (must be a no-op since fix a852c65657). Aliasing crash images (last 8 bytes are not a persisted footer yet decode to <= size-8) are emitted as separate cases carrying the known-finding signature. One case in eight is a long roll-over history: 10-14 single-entry segments (max segment size 24), the first 0-9 consumed, then reopen, reads, more appends and another reopen, so that live segment files straddle the 9/10 name boundary. Hand-picked regression cases come first. Non-trivial: at least two acknowledged appends and at least one delivery or crash image. Distinct: distinct Gallina terms."
 	tmpRoot = os.TempDir()
 	if st, err := os.Stat("/dev/shm"); err == nil && st.IsDir() {
 		tmpRoot = "/dev/shm"
@@ -512,6 +542,9 @@ func main() {
 		// purge everything / purge the first segment
 		{MaxSize: 1024, MaxSeg: 24, Ops: []jop{{Kind: "append", B: rep(1, 10)}, {Kind: "append", B: rep(2, 10)}, {Kind: "append", B: rep(3, 10)}, {Kind: "purge", N: 1}, {Kind: "append", B: rep(4, 4)}}},
 		{MaxSize: 1024, MaxSeg: 24, Ops: []jop{{Kind: "append", B: rep(1, 10)}, {Kind: "append", B: rep(2, 10)}, {Kind: "purge", N: 9}, {Kind: "append", B: rep(4, 4)}, {Kind: "reopen"}}},
+		// >= 10 segments in the lifetime of the directory (one entry per segment), live segments 8..12
+		// straddle the 9/10 file-name boundary; reopen, read, append, reopen (segment order = numeric id)
+		longRoll(12, 7, 2, 3, nil),
 		// strict verifyBlockFn
 		{MaxSize: 1024, MaxSeg: 64, VMode: 1, Ops: []jop{{Kind: "append", B: rep(1, 8)}, {Kind: "append", B: rep(2, 8)}, {Kind: "reopen"}},
 			Crash: &jcrash{B: append([]int{3}, rep(200, 15)...), Ks: allKs(16)}},
@@ -523,6 +556,16 @@ func main() {
 	}
 	segSizes := []int64{24, 24, 32, 40, 64, 64, 100, 300}
 	for w.Len() < w.N {
+		if r.IntN(8) == 0 { // long roll-over histories crossing the 9/10 segment-id boundary
+			var cr *jcrash
+			if r.IntN(2) == 0 {
+				b := []int{120, r.IntN(256), 0, 0, 0, 0, 0, 0, 0, r.IntN(40)}
+				cr = &jcrash{B: b, Ks: allKs(len(b))}
+			}
+			c := longRoll(10+r.IntN(5), r.IntN(10), r.IntN(4), r.IntN(4), cr)
+			emit(w, &c)
+			continue
+		}
 		c := jcase{MaxSeg: segSizes[r.IntN(len(segSizes))]}
 		switch r.IntN(4) {
 		case 0:
